@@ -125,11 +125,40 @@ def _r2_r3(ctx):
         ol = outer0[0]
         skip = cfg.reachable(ol, ol, avoid=[loop], within=ol)
         skips = [x for x in ast.walk(ol) if isinstance(x, ast.Continue) and C.enclosing_loop(x) is ol]
-        ctx.check(not skip, "R2", "every written operand of the producer is scanned for readers", fd.where(skips[0]) if skips else fd.where(ol),
-                  "an iteration over the producer's written operands can skip the scan of the following instructions (guards: %s): "
-                  "readers of that operand get no edge - e.g. registers that agree in `name` but not in `prefix` (AArch64 q0 / x0) are "
-                  "different registers" % [[("" if p else "not ") + U(e) for e, p in C.facts_at(x, stop=ol)] for x in skips][:2],
-                  fd.qname, "every written operand scanned")
+        # a skip taken only for an operand whose full register identity (prefix and name) was recorded by an earlier, scanned
+        # iteration is a de-duplication of repeats; whether the repeat's scan would have produced anything new depends on
+        # what else the scan reads of the operand (write-back flags) - not decided here
+        fl_ = C.flow_of(fd)
+        def _repeat_only(x):
+            nf = C.norm_fact_nodes(x, stop=ol)
+            memb = [(e, p) for e, p in nf if isinstance(e, ast.Compare) and isinstance(e.ops[0], ast.In)]
+            if not memb or not all(p for _, p in memb):
+                return False
+            is_reg = any(p and C.is_call_to(e, "isinstance") and U(e.args[1]) == "RegisterOperand" and U(e.args[0]) == U(ol.target)
+                         for e, p in nf)
+            for e, _ in memb:
+                key = U(fl_.subst(e.left))
+                attrs = {a.attr for a in ast.walk(fl_.subst(e.left)) if isinstance(a, ast.Attribute) and U(a.value) == U(ol.target)}
+                sname = U(e.comparators[0])
+                adds = [c for c in ast.walk(ol) if isinstance(c, ast.Call) and isinstance(c.func, ast.Attribute)
+                        and U(c.func.value) == sname and c.func.attr in ("add", "update", "discard", "remove", "pop")]
+                good_adds = adds and all(c.func.attr == "add" and len(c.args) == 1 and U(fl_.subst(c.args[0])) == key
+                                         and not cfg.reachable(cfg.node_of(c), ol, avoid=[loop], within=ol) for c in adds)
+                if not (is_reg and {"prefix", "name"} <= attrs and good_adds):
+                    return False
+            return True
+        if skip and skips and all(_repeat_only(x) for x in skips) and not cfg.reachable(
+                ol, ol, avoid=[loop] + [cfg.node_of(x) for x in skips], within=ol):
+            ctx.unknown("R2", "every written operand of the producer is scanned for readers", fd.where(skips[0]),
+                        "the scan is left out for a register operand whose (prefix, name) was already scanned in this call; that "
+                        "is safe only if the scan reads nothing else of the operand (write-back flags) - not decided")
+            skip = False
+        else:
+            ctx.check(not skip, "R2", "every written operand of the producer is scanned for readers", fd.where(skips[0]) if skips else fd.where(ol),
+                      "an iteration over the producer's written operands can skip the scan of the following instructions (guards: %s): "
+                      "readers of that operand get no edge - e.g. registers that agree in `name` but not in `prefix` (AArch64 q0 / x0) are "
+                      "different registers" % [[("" if p else "not ") + U(e) for e, p in C.facts_at(x, stop=ol)] for x in skips][:2],
+                      fd.qname, "every written operand scanned")
     # destinations scanned: destination + src_dst
     outer = [l for l in C.enclosing_loops(loop) if isinstance(l, ast.For)]
     roles = sorted(C.str_consts(outer[-1].iter)) if outer else []
